@@ -21,6 +21,7 @@ type Summary struct {
 // Main is the entry point shared by cmd/c03 and cmd/c07.
 //
 //	<exe> corpus  <out.json> <tier> <repo> <opa testdata dir> <corpus dir> <tmp dir>
+//	<exe> large   <out.json> <tier> <repo> <opa testdata dir> <corpus dir> <tmp dir>   (only the large single-call batches)
 //	<exe> replay  <out.json> <replay.json> <tmp dir>
 //	<exe> helpers <out.jsonl> <tier>                      (OPA evaluation of the framework helpers)
 //	<exe> propagation <out.jsonl> <tier>                  (error propagation of Lint over subsets of a small pool)
@@ -38,7 +39,8 @@ func Main(prop string) {
 		RunHelpers(prop, os.Args[2], os.Args[3])
 	case "propagation":
 		RunPropagation(os.Args[2], os.Args[3])
-	case "corpus":
+	case "corpus", "large":
+		// "large": only the large single-call batches (run with a harness built with -race in the thorough tier)
 		out, tier, repo, opa, cdir, tmp := os.Args[2], os.Args[3], os.Args[4], os.Args[5], os.Args[6], os.Args[7]
 		r := hutil.NewRng(hutil.SeedFromEnv())
 		plan := Plan{Tier: tier, Repo: repo, OPADir: opa, CorpusDir: cdir, BatchSize: 96, Stress: 1}
@@ -50,15 +52,29 @@ func Main(prop string) {
 			plan.OPASample, plan.GenN, plan.MutN, plan.SingleFile, plan.BundleSample = 260, 110, 110, 6, 90
 			// every module is linted five times here (k-shifts): a sample of each systematic family, all of them in C03
 			plan.FamilySample = 90
+			// the line-break family (813 modules of a few lines, never sampled) is about the bounds of what is reported for
+			// the text as it stands: one shift instead of four (thorough: all four)
+			plan.BreakShifts = []int{3}
 		case !locate:
 			plan.OPASample, plan.GenN, plan.MutN, plan.SingleFile, plan.Stress = 0, 4000, 4000, 200, 4
 			plan.Deep = true
 		default:
 			plan.OPASample, plan.GenN, plan.MutN, plan.SingleFile, plan.Stress = 0, 2500, 2500, 100, 3
 			plan.Deep = true
+			plan.QuotedSample = 1500
 		}
 		if locate {
 			job.Shifts = []int{1, 3, 10, 100}
+		} else if tier == "quick" {
+			// large single-call runs: 2 batches of 1200 small files in one Lint call each: every rule + 2 rule subsets, 3 rule subsets
+			plan.Large, plan.LargeSize, plan.LargeSets, plan.LargeRounds = 2, 1200, 2, 1
+		} else {
+			plan.Large, plan.LargeSize, plan.LargeSets, plan.LargeRounds = 4, 1500, 4, 2
+		}
+		if os.Args[1] == "large" {
+			plan.LargeOnly = true
+			// under the race detector an evaluation is several times slower, and a report does not need a collision in time
+			plan.Large, plan.LargeSize, plan.LargeSets, plan.LargeRounds = 2, 1000, 3, 1
 		}
 		watchdog := 10 * time.Minute
 		if tier == "quick" {
@@ -72,7 +88,7 @@ func Main(prop string) {
 		}
 		t0 := time.Now()
 		a := Assemble(r, plan)
-		job.Batches = a.Batches
+		job.Batches, job.Opts = a.Batches, a.Opts
 		res := RunMaster(os.Args[0], tmp, job, watchdog)
 		writeJSON(out, Summary{Prop: prop, Tier: tier, Counts: a.Counts, Results: res, WallMS: time.Since(t0).Milliseconds()})
 	case "replay":
@@ -82,12 +98,20 @@ func Main(prop string) {
 			panic(err)
 		}
 		var rf struct {
-			Modules []Module `json:"modules"`
+			Modules []Module  `json:"modules"`
+			Opt     *BatchOpt `json:"opt"`
 		}
 		if err := json.Unmarshal(bs, &rf); err != nil {
 			panic(err)
 		}
 		job := &Job{Timeout: 240, Detail: 50, Locate: locate, Par: 1, Batches: [][]Module{rf.Modules}}
+		if rf.Opt != nil && !locate {
+			o := *rf.Opt
+			if o.Rounds < 3 {
+				o.Rounds = 3 // an interleaving that showed once may need a few attempts to show again
+			}
+			job.Opts = []BatchOpt{o}
+		}
 		if locate {
 			job.Shifts = []int{1, 3, 10, 100}
 		}
